@@ -78,6 +78,36 @@ def defining_class(cls, meth):
     return None
 
 
+def helper_reads(cls, name, seen):
+    """attributes a plain helper method of [cls] reads on its own first parameter (recursively through further
+    helpers); properties and inherited special methods are not followed"""
+    if name in seen or name.startswith("__"):
+        return set(), False
+    seen.add(name)
+    f = inspect.getattr_static(cls, name, None)
+    if isinstance(f, (staticmethod, classmethod)) or not inspect.isfunction(f):
+        return set(), False
+    try:
+        fn = ast.parse(textwrap.dedent(inspect.getsource(f))).body[0]
+    except (OSError, TypeError, SyntaxError):
+        return set(), False
+    if not fn.args.args:
+        return set(), False
+    me = fn.args.args[0].arg
+    out, dyn = set(), False
+    for n in ast.walk(fn):
+        if isinstance(n, ast.Attribute) and isinstance(n.value, ast.Name) and n.value.id == me:
+            out.add(n.attr.lstrip("_"))
+        if isinstance(n, ast.Call) and isinstance(n.func, ast.Name) and n.func.id in ("getattr", "hasattr"):
+            dyn = True
+        if isinstance(n, ast.Call) and isinstance(n.func, ast.Attribute) and isinstance(n.func.value, ast.Name) \
+                and n.func.value.id == me:
+            h2, d2 = helper_reads(cls, n.func.attr, seen)
+            out |= h2
+            dyn = dyn or d2
+    return out, dyn
+
+
 def mentions(cls, meth, seen=None):
     """(attributes read on self, attributes read on the second parameter, reads by computed name?) in the source of
     [meth] as [cls] inherits it, following delegation to a base class's [meth]; leading underscores dropped"""
@@ -98,6 +128,15 @@ def mentions(cls, meth, seen=None):
                 o.add(n.attr.lstrip("_"))
         if isinstance(n, ast.Call) and isinstance(n.func, ast.Name) and n.func.id in ("getattr", "hasattr"):
             dyn = True
+        # a helper method called on self / other: what it reads on ITS self is read on that object
+        if isinstance(n, ast.Call) and isinstance(n.func, ast.Attribute) and isinstance(n.func.value, ast.Name) \
+                and n.func.value.id in (me, other) and n.func.attr != meth:
+            hs, hd = helper_reads(b, n.func.attr, set())
+            if n.func.value.id == me:
+                s |= hs
+            else:
+                o |= hs
+            dyn = dyn or hd
         if isinstance(n, ast.Call) and isinstance(n.func, ast.Attribute) and n.func.attr == meth:
             for base in b.__mro__[1:]:
                 if meth in base.__dict__ and inspect.isfunction(base.__dict__[meth]):
